@@ -274,3 +274,6 @@ def run(ctx, fb, cfg):
     streams.check_disj_new(ctx, lib, R + "K6.disj-new", "crate::operator::disj::DFSDisj::new", "DFSDisj")
     streams.check_disj_solve(ctx, lib, DFS, R + "K3.disj-dfs", "<crate::operator::disj::DFSDisj as crate::solver::Solve>::solve")
     streams.check_conde_fold(ctx, lib, R + "K6.conde-fold", DFS)
+    import C13
+
+    C13.check_conde_builder(ctx, lib, R + "K6.conde-builder")
